@@ -12,7 +12,7 @@ SHARDS = {'quick': 4, 'thorough': 16}
 SHARD_TIMEOUT = {'quick': 300, 'thorough': 1500}
 
 CFG = {
-    'monitors': ['cascade', 'commit'],
+    'monitors': ['cascade', 'commit', 'atomic', 'index'],
     'deciding_counters': ['cascade.deletes_judged'],
     'n': {'quick': 150, 'thorough': 1500},
     'ops': {'quick': 30, 'thorough': 60},
@@ -23,8 +23,7 @@ CFG = {
 
 SMALL = {
     'templates': ['mixed_cascade', 'o2m_req', 'o2m_req_nocascade', 'o2o_req_cascade', 'self'],
-    'length': {'quick': 3, 'thorough': 4},
-    'budget': {'quick': 12000, 'thorough': 400000},
+    'budget': {'quick': 9000, 'thorough': 500000},
     'monitors': CFG['monitors'],
 }
 
